@@ -69,6 +69,8 @@ def obligations(prop, tier):
                 out.append((f"kernel:batch_eval-fault:{k}:{n}", {"kind": "batch", "n": n, "k": k, "fault": True}))
             for is_max in (False, True):
                 out.append((f"kernel:extrema-fault:{'max' if is_max else 'min'}:{n}", {"kind": "extrema", "n": n, "is_max": is_max, "signed": False, "fault": True}))
+        for entry in ("satisfiable", "check_satisfiability", "solution", "eval", "min", "max"):
+            out.append((f"kernel:entry-fault:{entry}", {"kind": "entry", "n": 2, "entry": entry, "fault": True}))
     return out
 
 
@@ -195,9 +197,182 @@ def _replay_core(case):
                                              + (f" (e.g. {bad[0]!r} with operand annotations {[a.annotations for a in bad[0].args]})" if bad else "")}
 
 
+def run_entry(oid, params, tier, prop):
+    """C17 kernel: the PUBLIC BackendZ3 entry points (Backend.satisfiable / check_satisfiability / solution / eval / min / max -> the Z3
+    specific _satisfiable, _check_satisfiability, _solution, _eval, _extrema) on the oracle solver object of this module; the k-th check
+    (symbolic k) times out.  A call during which a check timed out must raise a claripy error: any returned answer is a violation.
+    Without a fault the answer must be correct for the symbolic feasible set."""
+    import claripy
+    import claripy.backends.backend_z3 as bz
+    from claripy.errors import ClaripyError, ClaripySolverInterruptError
+    from pysym import engine as E
+
+    n, entry = params["n"], params["entry"]
+    size = 1 << n
+    S = z3.BitVec("S", size)
+    xz = z3.BitVec("kx", n)
+    fault_at = z3.BitVec("fault_at", 6)
+    zconsts = {"S": S, "fault_at": fault_at}
+    be = claripy.backends.z3
+    known = common.known_for(common.load_known(prop), oid)
+    xc = claripy.BVS("kx", n, explicit_name=True)
+    state = {}
+
+    def inS(v):
+        return z3.Extract(v, v, S) == 1
+
+    def holds(cs, v):
+        for c in cs:
+            g = z3.simplify(z3.substitute(c, (xz, z3.BitVecVal(v, n))))
+            if z3.is_false(g):
+                return False
+            if not z3.is_true(g):
+                raise RuntimeError(f"constraint not ground after substitution: {g}")
+        return True
+
+    def stub_sat(solver, extra_constraints, occasion):
+        k = state["calls"]
+        state["calls"] += 1
+        if E.ENG.branch(fault_at == k):
+            state["faulted"] = True
+            raise ClaripySolverInterruptError("timeout")
+        cs = [c for f in solver.frames for c in f] + list(extra_constraints)
+        cand = [v for v in range(size) if holds(cs, v)]
+        feas = z3.Or(*[inS(v) for v in cand]) if cand else z3.BoolVal(False)
+        if not E.ENG.branch(feas):
+            solver.last_model = None
+            return False
+        sk = z3.BitVec(f"sk{k}", n)
+        E.ENG.assume(z3.Or(*[z3.And(sk == v, inS(v)) for v in cand]))
+        solver.last_model = FakeModel("kx", E.ENG.concretize(sk, signed=False))
+        return True
+
+    def build():
+        state.clear()
+        state.update(calls=0, faulted=False)
+        E.ENG.assume(z3.ULT(fault_at, 12))
+        if entry in ("min", "max"):
+            E.ENG.assume(S != 0)
+        saved = (bz.z3_solver_sat, type(be)._primitive_from_model, type(be)._generic_model)
+        bz.z3_solver_sat = stub_sat
+        type(be)._primitive_from_model = lambda self, model, expr: model.value
+        type(be)._generic_model = lambda self, model: {model.name: model.value}
+        solver = FakeSolver()
+        try:
+            try:
+                if entry == "satisfiable":
+                    r = be.satisfiable(solver=solver)
+                elif entry == "check_satisfiability":
+                    r = be.check_satisfiability(solver=solver)
+                elif entry == "solution":
+                    r = be.solution(xc, 1, solver=solver)
+                elif entry == "eval":
+                    r = be.eval(xc, 2, solver=solver)
+                else:
+                    r = getattr(be, entry)(xc, solver=solver)
+                exc = None
+            except ClaripyError as e:
+                r, exc = None, e
+        finally:
+            bz.z3_solver_sat, type(be)._primitive_from_model, type(be)._generic_model = saved
+        return r, exc, state["faulted"]
+
+    def check(path, s, out):
+        if path.kind == "exc":
+            e = path.result
+            return [Fail("exception", f"raised {type(e).__name__}: {str(e)[:160]}", None, known_key="exc")]
+        r, exc, faulted = out
+        if faulted:
+            if exc is None:
+                return [Fail("fault-swallowed", f"a check timed out during BackendZ3.{entry} but it returned {r!r:.60} instead of raising a claripy error")]
+            return []
+        if exc is not None:
+            return [Fail("exception", f"BackendZ3.{entry} raised {type(exc).__name__} without an injected fault")]
+        anyS = S != 0
+        if entry == "satisfiable":
+            return [Fail("answer", f"satisfiable() = {r}", anyS != z3.BoolVal(bool(r)))]
+        if entry == "check_satisfiability":
+            return [Fail("answer", f"check_satisfiability() = {r!r}", z3.Not(z3.If(anyS, z3.BoolVal(r == "SAT"), z3.BoolVal(r == "UNSAT"))))]
+        if entry == "solution":
+            return [Fail("answer", f"solution(x, 1) = {r}", inS(1) != z3.BoolVal(bool(r)))]
+        if entry == "eval":
+            vals = list(r)
+            fl = [Fail("answer", f"eval returned {vals}, not all feasible", z3.Or(*[z3.Not(inS(v)) for v in vals]) if vals else z3.BoolVal(False))]
+            if len(vals) < 2:
+                others = [u for u in range(size) if u not in vals]
+                fl.append(Fail("answer", f"eval returned {vals} (< 2) but another feasible value exists", z3.Or(*[inS(u) for u in others])))
+            return fl
+        v = r & (size - 1)
+        better = [u for u in range(size) if (u > v if entry == "max" else u < v)]
+        return [Fail("answer", f"{entry} returned {r}", z3.Or(z3.Not(inS(v)), *[inS(u) for u in better]))]
+
+    def make_case(vals, f):
+        return {"harness": "harness.p_z3kernel", "params": params, "vals": vals, "obligation": oid, "fail_kind": f.kind, "detail": f.detail[:300]}
+
+    return symrun.run(oid, width=24, zconsts=zconsts, build=build, check=check, make_case=make_case, max_paths=4000, known=known,
+                      sample={"obligation": oid}, reset=False)
+
+
+def _replay_entry(case):
+    import claripy
+    import claripy.backends.backend_z3 as bz
+    from claripy.errors import ClaripyError, ClaripySolverInterruptError
+
+    params, vals = case["params"], case["vals"]
+    n, entry = params["n"], params["entry"]
+    size = 1 << n
+    Sv = int(vals.get("S", 0))
+    members = [v for v in range(size) if (Sv >> v) & 1]
+    fault_at = int(vals.get("fault_at", 99))
+    be = claripy.backends.z3
+    x = z3.BitVec("kx", n)
+    xc = claripy.BVS("kx", n, explicit_name=True)
+    solver = z3.Solver()
+    solver.add(z3.Or(*[x == v for v in members]) if members else z3.BoolVal(False))
+    calls = [0]
+    real = bz.z3_solver_sat
+
+    def wrapped(s, extra, occasion):
+        k = calls[0]
+        calls[0] += 1
+        if k == fault_at:
+            raise ClaripySolverInterruptError("timeout (injected)")
+        return real(s, extra, occasion)
+
+    bz.z3_solver_sat = wrapped
+    try:
+        try:
+            if entry == "satisfiable":
+                r = be.satisfiable(solver=solver)
+            elif entry == "check_satisfiability":
+                r = be.check_satisfiability(solver=solver)
+            elif entry == "solution":
+                r = be.solution(xc, 1, solver=solver)
+            elif entry == "eval":
+                r = be.eval(xc, 2, solver=solver)
+            else:
+                r = getattr(be, entry)(xc, solver=solver)
+            exc = None
+        except ClaripyError as e:
+            r, exc = None, e
+    finally:
+        bz.z3_solver_sat = real
+    desc = f"BackendZ3.{entry} on the feasible set {members}, timeout at check {fault_at} ({calls[0]} checks made)"
+    if calls[0] > fault_at:
+        return {"violated": exc is None, "detail": (f"returned {r!r:.60} although a check timed out" if exc is None else f"raised {type(exc).__name__}") + "; " + desc}
+    if exc is not None:
+        return {"violated": True, "detail": f"raised {type(exc).__name__} without a fault; " + desc}
+    ok = {"satisfiable": lambda: bool(r) == bool(members), "check_satisfiability": lambda: r == ("SAT" if members else "UNSAT"),
+          "solution": lambda: bool(r) == (1 in members), "eval": lambda: set(r) <= set(members) and (len(r) == 2 or set(r) == set(members)),
+          "min": lambda: not members or (r & (size - 1)) == min(members), "max": lambda: not members or (r & (size - 1)) == max(members)}[entry]()
+    return {"violated": not ok, "detail": f"answer {r!r:.60}; " + desc}
+
+
 def run_obligation(oid, params, tier, prop):
     if params.get("kind") == "core":
         return run_core(oid, params, tier, prop)
+    if params.get("kind") == "entry":
+        return run_entry(oid, params, tier, prop)
     import claripy
     import claripy.backends.backend_z3 as bz
     from claripy.errors import ClaripyError, ClaripySolverInterruptError
@@ -334,6 +509,8 @@ def replay(case):
     params, vals = case["params"], case["vals"]
     if params.get("kind") == "core":
         return _replay_core(case)
+    if params.get("kind") == "entry":
+        return _replay_entry(case)
     n, kind = params["n"], params["kind"]
     size = 1 << n
     Sv = int(vals.get("S", 0))
